@@ -127,6 +127,7 @@ func (t *Tree) backup3() {
 
 // next returns the next unread token and advances the internal cursor by one.
 func (t *Tree) next() token {
+	verifParseStep()
 	var tok token
 	if len(t.unread) > 0 {
 		tok, t.unread = t.unread[len(t.unread)-1], t.unread[:len(t.unread)-1]
@@ -198,6 +199,7 @@ func (t *Tree) traverse(n Node) {
 		return
 	}
 	t.enter(n)
+	verifTraverse(n)
 	for _, c := range n.All() {
 		t.traverse(c)
 	}
